@@ -445,11 +445,50 @@ def shards(tier):
     # the meaning of a designation must not depend on what was resolved before it in the same daemon
     out.append(('desig-seq', 0, 0))
     out.append(('desig-seq', 1, 0))
+    out.append(('desig-seq', 2, 0))
+    out.append(('desig-seq', 3, 0))
     return out
 
 
 SEQ = ['SIGRTMIN+1', 'rtmin', 'SIGRTMIN+2', 'TERM+1', 'term', 15, 'SIGTERM', 'usr1+1', 'USR1', 'SIGRTMIN', 'rtmin+1', '15',
        'kill', 'KILL+0', 'hup+2', 'HUP']
+
+
+# values that compare (and hash) equal to a valid designation without being one: True == 1, 10.0 == 10
+SEQ2 = [1, True, 1.0, 10, 10.0, '10', 15, 15.0, '15', 2, 2.0, False, 0, 0.0, 12, 12.0, True, 1]
+
+
+def _run_designation_seq(r, seq):
+    """The whole sequence through the `signal` request of ONE daemon (nothing is re-created in between, so whatever the
+    daemon remembers about earlier designations is still there): each answer must be what a fresh daemon gives."""
+    dw = DWorld()
+    try:
+        w, k = dw.w, dw.w.kernel
+        hist = []
+        for d in seq:
+            ref = reference_designation(d)
+            if ref in (9, 19) or (d in (0, '0') and not isinstance(d, bool)) or _out_of_range(d):
+                continue          # uncatchable signals would end the daemon's only worker; 0 / out of range: see above
+            r.cases += 1
+            n0 = len(k.signal_log)
+            rq = w.request('signal', name='a', signum=d)
+            rep = rq.reply()
+            ok = rep is not None and rep.get('status') == 'ok'
+            sigs = sorted(set(s for (t, pid, s, via) in k.signal_log[n0:]))
+            case = {'designation_sequence': [x if isinstance(x, (int, str, float, bool, type(None))) else repr(x)
+                                             for x in hist + [d]]}
+            if ref is not None:
+                r.check('C18.same_meaning', ok and sigs == [ref],
+                        lambda: 'designation %r (reference %s) after %r in the same daemon: ok=%s delivered %s'
+                        % (d, ref, hist, ok, sigs), 'util.to_signum/history', case, fp='seq-meaning-%s' % _kind(d))
+            else:
+                r.check('C18.refused_clean', not ok and not sigs,
+                        lambda: '%r is not a signal designation but after %r in the same daemon the signal request answered '
+                        'ok=%s and delivered %s' % (d, hist, ok, sigs), 'util.to_signum/history', case,
+                        fp='seq-accepted-%s' % _kind(d))
+            hist.append(d)
+    finally:
+        dw.close()
 
 
 def run_shard(shard, tier):
@@ -480,9 +519,12 @@ def run_shard(shard, tier):
     h = Holder(DWorld)
     todo = designations(tier)[lo:hi]
     if shard[0] == 'desig-seq':
-        todo = SEQ if lo == 0 else list(reversed(SEQ))
+        base = SEQ if lo in (0, 1) else SEQ2
+        todo = base if lo in (0, 2) else list(reversed(base))
         todo = todo + todo
     try:
+        if shard[0] == 'desig-seq':
+            _run_designation_seq(r, todo)
         for d in todo:
             r.cases += 1
             run_designation(r, h, d, scratch)
@@ -496,6 +538,10 @@ def run_shard(shard, tier):
 
 def replay_case(case):
     r = EnumResult()
+    if 'designation_sequence' in case:
+        _run_designation_seq(r, case['designation_sequence'])
+        return [(v['clause'], v['detail'], v['where']) for v in r.violations
+                if v.get('case', {}).get('designation_sequence') == case['designation_sequence']]
     if 'designation' in case:
         scratch = Scratch()
         h = Holder(DWorld)
